@@ -356,7 +356,10 @@ Print Assumptions C11_zvode_window_is_interpolation_range.
 (* One call from any reachable state: a target inside the window is answered
    at exactly that time; any answer lies between _back and the target; the
    only error is a target behind the window (or no state set), which leaves
-   the object unchanged; the window never moves backward. *)
+   the object unchanged; the window never moves backward and always still
+   contains the time at which the call started (so every time between the
+   start of the last call and now stays reachable, as Integrator.mcstep
+   promises). *)
 Theorem C11_zvode_mcstep_answer :
   forall s t f, ZInv s ->
     (z_isset s = true -> z_front s < t -> z_front s <= z_t s -> z_tcur s < f <= t) ->
@@ -365,7 +368,8 @@ Theorem C11_zvode_mcstep_answer :
     (raised = false -> tout = z_t s1 /\ z_back s <= tout <= t \/ tout = z_t s /\ z_t s = t) /\
     (raised = false -> z_back s <= t <= z_front s -> tout = t) /\
     (raised = true -> s1 = s /\ (z_isset s = false \/ t < z_back s)) /\
-    z_front s <= z_front s1.
+    z_front s <= z_front s1 /\
+    (z_isset s = true -> z_back s1 <= z_t s <= z_front s1).
 Proof. exact z_mcstep_spec. Qed.
 Print Assumptions C11_zvode_mcstep_answer.
 
